@@ -115,7 +115,11 @@ def run_case(seed, i, tier):
         # their checks (independent evtx dump, generated records, journalctl) are run here too and reported under C03
         name = VIA[(i // 6) % 3]
         mod = __import__(name)
-        cr = mod.run_case(seed, i, tier)
+        mod.FORCE_WINDOW = True
+        try:
+            cr = mod.run_case(seed, i, tier)
+        finally:
+            mod.FORCE_WINDOW = False
         cr.probes = type(cr.probes)({("via_%s:%s" % (name, k)): v for k, v in cr.probes.items()})
         for v in cr.violations:
             if v.replay is not None:
